@@ -113,6 +113,15 @@ def cases(tier, seed):
         for q in qs:
             for rev in (False, True):
                 yield (r, q, q[-1] + 101, 3, 0, 100, rev)
+    # far down a chromosome (coordinates beyond 2^24, 2^31 and 2^32 bp) with labels one or two base pairs apart: whatever narrows the number type
+    # of a coordinate (float32 keys, 32-bit integers) shows as a wrong order or a wrong partner
+    rb = random.Random(seed * 61 + 1)
+    for big in (2 ** 24 + 1000, 2 ** 31 + 7, 2 ** 32 + 12345):
+        for _ in range(400 if tier == 'quick' else 6000):
+            nr, nq = rb.randint(1, 6), rb.randint(1, 5)
+            r = tuple(sorted(big + rb.choice((0, 1, 2, 3, 50, 51, 52, 100, 101, 200)) for _ in range(nr)))
+            q = tuple(sorted(rb.choice((0, 1, 2, 3, 50, 51, 52, 100, 101)) for _ in range(nq)))
+            yield (r, q, q[-1] + 1, 0, big + rb.choice((-1, 0, 1, 2, 50)), rb.choice((0, 1, 2, 50)), rb.random() < 0.5)
     rnd = random.Random(seed)
     for _ in range(3000 if tier == 'quick' else 40000):
         nr, nq = rnd.randint(0, 12), rnd.randint(1, 8)
@@ -137,7 +146,7 @@ def bounded(repo, tier, seed):
                 viol[key] = v
     return result(sum(r[0] for r in res), sum(r[1] for r in res),
                   "exhaustive lattice: reference label multisets of <=3 labels on a 100-bp grid (incl. coincident labels), query multisets of <=3 labels, "
-                  "seed offsets -100/0/100/150, maxDistance 0/50/100 (labels exactly at maxDistance, ties), both strands, fragments with shift 3; "
+                  "seed offsets -100/0/100/150, maxDistance 0/50/100 (labels exactly at maxDistance, ties), both strands, fragments with shift 3; the same kind of cases at coordinates beyond 2^24 / 2^31 / 2^32 bp with labels 1-2 bp apart; "
                   "plus random larger cases; the cases of a chunk share one engine per maxDistance (as all queries and fragments do in the program); non-trivial = at least 2 pairs", [dict(zip(('reference', 'query', 'queryLength', 'shift', 'seed', 'maxDistance', 'reverse'), c)) for c in allc[4000:4003]],
                   list(viol.values())[:5], exhaustive=True, bounds="<=3 reference and <=3 query labels on the lattice")
 
